@@ -200,6 +200,11 @@ class SplitFiles(BCheck):
                 if p is not None and sums[k] != len(want[k]):
                     return dict(expected="histogram column %s sums to the %d reads written to that output" % (header[k + 1], len(want[k])), observed=sums[k],
                                 clause="histogram", add_untagged=case["add_untagged"], output=k, case=_brief(case))
+                # an output that was not requested receives no read: its column stays empty (the untagged column under --add-untagged is the
+                # subject of known finding F7b and is left out here)
+                if p is None and sums[k] != 0 and not (k == 0 and case["add_untagged"]):
+                    return dict(expected="histogram column %s is empty: that output was not requested, no read is written to it" % header[k + 1], observed=sums[k],
+                                clause="histogram-unrequested", add_untagged=case["add_untagged"], output=k, case=_brief(case))
             return None
         finally:
             logging.disable(logging.NOTSET)
